@@ -229,3 +229,39 @@ def check(prog, rep):
     window_rounding(prog, rep)
     peewee_clip(prog, rep)
     rep.floor("C03 obligations", len(rep.obligations), 30)
+
+
+SQ = "aw_datastore/storages/sqlite.py"
+PW = "aw_datastore/storages/peewee.py"
+ME = "aw_datastore/storages/memory.py"
+DS = "aw_datastore/datastore.py"
+VARIANTS = [
+    ("B sqlite ordered by endtime (original defect)", SQ, "ORDER BY starttime DESC, id DESC LIMIT ?", "ORDER BY endtime DESC LIMIT ?", "ORDER"),
+    ("B memory count ignores durations (original defect)", ME, "if (not starttime or starttime <= e.timestamp + e.duration)", "if (not starttime or starttime <= e.timestamp)", ["PRED", "PRED-AGREE"]),
+    ("B sqlite strict start edge", SQ, "            AND endtime >= ? AND starttime <= ?\n            ORDER BY", "            AND endtime > ? AND starttime <= ?\n            ORDER BY", "PRED"),
+    ("B sqlite window bindings swapped", SQ, "rows = c.execute(query, [bucket_id, starttime_i, endtime_i, limit])", "rows = c.execute(query, [bucket_id, endtime_i, starttime_i, limit])", "PRED"),
+    ("B sqlite count compares start with start", SQ, "            + \"AND endtime >= ? AND starttime <= ?\"", "            + \"AND starttime >= ? AND starttime <= ?\"", ["PRED", "PRED-AGREE"]),
+    ("B sqlite end sentinel too small", SQ, "MAX_TIMESTAMP = 2**63 - 1", "MAX_TIMESTAMP = 2**31 - 1", "PRED"),
+    ("B sqlite window edge scaled in milliseconds", SQ, "        starttime_i = starttime.timestamp() * 1000000 if starttime else 0\n        endtime_i = endtime.timestamp() * 1000000 if endtime else MAX_TIMESTAMP\n        query = \"\"\"", "        starttime_i = starttime.timestamp() * 1000 if starttime else 0\n        endtime_i = endtime.timestamp() * 1000000 if endtime else MAX_TIMESTAMP\n        query = \"\"\"", "CODEC"),
+    ("B memory strict end edge", ME, "            events = [e for e in events if e.timestamp <= endtime]", "            events = [e for e in events if e.timestamp < endtime]", ["PRED", "PRED-AGREE"]),
+    ("B memory slice before the filters", ME, "        # Filter by date\n        if starttime:", "        if limit > 0:\n            events = events[:limit]\n        # Filter by date\n        if starttime:", "LIMIT"),
+    ("B memory negative limit reaches the slice", ME, "        elif limit < 0:\n            limit = sys.maxsize\n        events = events[:limit]", "        events = events[:limit]", "LIMIT"),
+    ("B memory ascending", ME, "events = sorted(events, key=lambda k: k[\"timestamp\"])[::-1]", "events = sorted(events, key=lambda k: k[\"timestamp\"])", "ORDER"),
+    ("B memory sorted by duration", ME, "events = sorted(events, key=lambda k: k[\"timestamp\"])[::-1]", "events = sorted(events, key=lambda k: k[\"duration\"])[::-1]", "ORDER"),
+    ("B peewee prefilter of one hour", PW, "starttime - timedelta(hours=24) <= EventModel.timestamp", "starttime - timedelta(hours=1) <= EventModel.timestamp", "PRED"),
+    ("B peewee start edge ignores duration", PW, "                starttime <= dt_plus_duration(EventModel.timestamp, EventModel.duration)", "                starttime <= EventModel.timestamp", "PRED"),
+    ("B peewee ordered ascending", PW, "            .where(EventModel.bucket == self.bucket_keys[bucket_id])\n            .order_by(EventModel.timestamp.desc())\n            .limit(limit)", "            .where(EventModel.bucket == self.bucket_keys[bucket_id])\n            .order_by(EventModel.timestamp)\n            .limit(limit)", "ORDER"),
+    ("B peewee limit 0 falls through", PW, "        if limit == 0:\n            return []\n        q = (", "        q = (", "LIMIT"),
+    ("B peewee julian epoch constant", PW, "(peewee.fn.julianday(dt) - 2440587.5) * 86400.0 + duration", "(peewee.fn.julianday(dt) - 2440588.5) * 86400.0 + duration", "PRED"),
+    ("B peewee clip keeps the original end offset", PW, "                    e.timestamp = starttime\n                    e.duration = e_end - e.timestamp", "                    e.timestamp = starttime", "CLIP"),
+    ("B peewee clip applied to every event", PW, "                if e.timestamp + e.duration > endtime:\n                    e.duration = endtime - e.timestamp", "                if e.timestamp + e.duration != endtime:\n                    e.duration = endtime - e.timestamp", "CLIP"),
+    ("B window end carry dropped", DS, "            endtime = endtime.replace(microsecond=microseconds) + timedelta(\n                seconds=second_offset\n            )", "            endtime = endtime.replace(microsecond=microseconds)", "ROUND"),
+    ("B window start floored to 100 us with wrong factor", DS, "microsecond=1000 * int(starttime.microsecond / 1000)", "microsecond=100 * int(starttime.microsecond / 1000)", "ROUND"),
+    ("B start and end swapped when forwarding", DS, "            self.bucket_id, limit, starttime, endtime\n        )", "            self.bucket_id, limit, endtime, starttime\n        )", "ROUND"),
+    ("B peewee end edge not converted to UTC", PW, "        if endtime:\n            endtime = endtime.astimezone(timezone.utc)\n", "", "PRED"),
+    ("OK comparison flipped", ME, "            events = [e for e in events if e.timestamp <= endtime]", "            events = [e for e in events if endtime >= e.timestamp]", "ok"),
+    ("OK the two memory filters merged", ME, "        if starttime:\n            events = [e for e in events if starttime <= (e.timestamp + e.duration)]\n        if endtime:\n            events = [e for e in events if e.timestamp <= endtime]\n", "        events = [e for e in events if (not starttime or starttime <= e.timestamp + e.duration) and (not endtime or e.timestamp <= endtime)]\n", "ok"),
+    ("OK sorted reverse", ME, "events = sorted(events, key=lambda k: k[\"timestamp\"])[::-1]", "events = sorted(events, key=lambda k: k[\"timestamp\"], reverse=True)", "ok"),
+    ("OK floor via floor division", DS, "microsecond=1000 * int(starttime.microsecond / 1000)", "microsecond=starttime.microsecond // 1000 * 1000", "ok"),
+    ("OK peewee order by negated field", PW, "            .order_by(EventModel.timestamp.desc())\n            .limit(limit)", "            .order_by(-EventModel.timestamp)\n            .limit(limit)", "ok"),
+]
